@@ -36,15 +36,14 @@ theorem tail_ok (hE : EnvOK env G) {sh : Shared D L} {st : St} (h : ShInv env G 
         hs2.congr rfl rfl (hE.flush_mono _)⟩
     · exact ⟨h2, hs2⟩
   unfold tail
-  by_cases hc : (st == .entering && sh.last == .absorb) = true
+  by_cases hc : ((st == .entering || st == .enteringSyllable) && sh.last == .absorb) = true
   · rw [if_pos hc]
     obtain ⟨sh2, hq, hi2, _⟩ := tryAutoCommit_ok hE h
     rw [hq]
-    have hst : st = .entering := by
-      simp only [Bool.and_eq_true] at hc
-      exact eq_of_beq hc.1
-    subst hst
-    exact .ok (key sh2 hi2 trivial)
+    have hst : st = .entering ∨ st = .enteringSyllable := by
+      simp only [Bool.and_eq_true, Bool.or_eq_true] at hc
+      exact hc.1.imp eq_of_beq eq_of_beq
+    rcases hst with rfl | rfl <;> exact .ok (key sh2 hi2 trivial)
   · rw [if_neg hc]
     exact .ok (key sh h hs)
 
